@@ -83,6 +83,14 @@ def one(ctx, core, shape, method, n, order, full_output):
         # a first call with other arguments: the checked call must not see anything of it
         xprev = Arr(x.shape, [DV({('x-first-call', c)}, 'f', 'any', sel={('x-first-call', c)}) for c in range(x.size)])
         d(xprev, DV({('arg-first-call', 0)}, 'f'), a=DV({('kw-first-call', 'a')}, 'f'))
+        # ... and one at the same x with other arguments, one at another x with the same arguments
+        # (a one-entry memo is only hit by the directly preceding call: alternate which of the two comes last)
+        if (n + order + len(shape)) % 2:
+            d(xprev, marker, a=kwmarker)
+            d(x, DV({('arg-second-call', 0)}, 'f'), a=DV({('kw-second-call', 'a')}, 'f'))
+        else:
+            d(x, DV({('arg-second-call', 0)}, 'f'), a=DV({('kw-second-call', 'a')}, 'f'))
+            d(xprev, marker, a=kwmarker)
         del s.fcalls[:]
         res = d(x, marker, a=kwmarker)
         return res, list(s.fcalls)
@@ -120,7 +128,7 @@ def one(ctx, core, shape, method, n, order, full_output):
                 continue
             for c, e in enumerate(items):
                 t = tags_of(e)
-                foreign = {x for x in t if (x[0] == 'x' and x[1] != c) or 'first-call' in str(x[0])}
+                foreign = {x for x in t if (x[0] == 'x' and x[1] != c) or '-call' in str(x[0])}
                 if foreign:
                     bad.append('%s[%d] depends on %s' % (nm, c, sorted(foreign)))
         rep.check(not bad, 'R-COLSEP', construct, where,
